@@ -561,6 +561,12 @@ func (r *runner) taskFn(i int) getoptions.CommandFn {
 			<-pt.ch
 		}
 		// (4) output
+		if !r.spec.Buffer {
+			// without buffering the helpers hand out the process's own streams (nothing is written to them here)
+			if dag.Stdout(ctx) == nil || dag.Stderr(ctx) == nil {
+				r.log(Event{Kind: EvCancel, Graph: -7})
+			}
+		}
 		if r.spec.Buffer && r.spec.QuietMask&(1<<uint(i)) == 0 {
 			n := r.spec.Chunks
 			if n == 0 {
